@@ -163,6 +163,12 @@ pub fn family(name: &str) -> Family {
             binary: vec!["then", "or", "delim"],
             alphabet: vec!["a", "b", "(", ")"],
         },
+        "nst" => Family {
+            leaves: vec![j("a"), j("b"), json!(["any"]), json!(["validate", ["any"], "1", "F"]), json!(["cust", 1, false]), json!(["noneof", ["a"]])],
+            unary: vec!["ornot", "rep0", "nested", "nested", "nested", "validateF", "tospan", "map"],
+            binary: vec!["then", "or", "choicev", "then"],
+            alphabet: vec!["a", "b", "(", ")"],
+        },
         "pratt" => Family { leaves: vec![], unary: vec![], binary: vec![], alphabet: vec!["a", "b", "+", "*", "-", "!", "^", "~"] },
         _ => panic!("unknown family {name}"),
     }
@@ -224,6 +230,16 @@ pub fn gen(r: &mut Rng, f: &Family, budget: usize) -> J {
                 };
                 json!(["recover", a, st])
             }
+            "nested" => {
+                let t = json!(["tree"]);
+                let b = match r.below(5) {
+                    0 => json!(["ithen", ["just", ["a"]], t]),
+                    1 => json!(["theni", t, ["just", ["b"]]]),
+                    2 => json!(["or", ["ithen", ["just", ["a"]], t], t]),
+                    _ => t,
+                };
+                json!(["nested", gen(r, f, budget - 1), b])
+            }
             "label" => json!(["label", gen(r, f, budget - 1), *r.pick(&["L", "M"]), false]),
             "labelctx" => json!(["label", gen(r, f, budget - 1), *r.pick(&["L", "M"]), true]),
             "maperr" => json!(["maperr", gen(r, f, budget - 1), "tag"]),
@@ -273,8 +289,30 @@ pub fn gen(r: &mut Rng, f: &Family, budget: usize) -> J {
     }
 }
 
-pub fn gen_input(r: &mut Rng, f: &Family, max_len: usize) -> Vec<&'static str> {
+pub fn gen_input(r: &mut Rng, f: &Family, max_len: usize, tree: bool) -> Vec<&'static str> {
     let n = r.below(max_len + 1);
+    if tree {
+        // token trees: a random balanced bracket sequence
+        let mut v = vec![];
+        let mut depth = 0;
+        while v.len() + depth < n {
+            match r.below(4) {
+                0 if v.len() + depth + 2 <= n => {
+                    v.push("(");
+                    depth += 1;
+                }
+                1 if depth > 0 => {
+                    v.push(")");
+                    depth -= 1;
+                }
+                _ => v.push(*r.pick(&["a", "b"])),
+            }
+        }
+        for _ in 0..depth {
+            v.push(")");
+        }
+        return v;
+    }
     (0..n).map(|_| *r.pick(&f.alphabet)).collect()
 }
 
